@@ -133,6 +133,11 @@ class Interp:
                 return ("proj", v[1], ("vf", v[2][1], i))
             if v[0] == "uninit":
                 return UNINIT
+            if v[0] == "op" and v[1] == "with_field":
+                base, j, val = v[2]
+                if j[2] == i:
+                    return val
+                return self.project1(st, base, e)
             return ("proj", v, ("field", i))
         if k == "downcast":
             if v[0] == "adt":
@@ -821,6 +826,18 @@ class Interp:
                     elif nm == "unwrap_or":
                         out.append((s2, pl[0] if ok else args[1]))
                 return out
+        # growing a collection through a known &mut place: keep the collection's history as a term
+        if (p.startswith("std::vec::Vec::<") and nm == "push" and len(args) == 2) or \
+           (p.startswith("std::collections::BTreeMap::<") and nm == "insert" and len(args) == 3):
+            if args[0][0] == "ref":
+                old = self.load_ptr(st, args[0][1])
+                rargs = tuple(self.resolve(st, a) for a in args)
+                st.events.append(("call", name, rargs))
+                new = ("op", nm, (old,) + tuple(args[1:]))
+                self.store_ptr(st, args[0][1], new)
+                if nm == "push":
+                    return [(st, ("tup", ()))]
+                return [(st, ("call", name + "->old", rargs))]
         # iteration (bounded unrolling): into_iter / iter -> ('itersrc', x); next -> fork
         if (tr == "std::iter::IntoIterator" and nm == "into_iter") or (nm in ("iter", "iter_mut", "into_iter", "chars", "lines", "enumerate") and not fn.get("resolved_local") and False):
             return [(st, ("op", "into_iter", (self.resolve(st, args[0]),)))]
